@@ -36,8 +36,14 @@ def run(c):
     with contextlib.redirect_stdout(io.StringIO()):
         g.clear(); gc.collect()
     return res
+import signal, os
+def _hang(sig, frm):
+    # the reference itself does not terminate on this program: say so and stop (the orchestrator goes on with the rest)
+    sys.__stdout__.write(json.dumps({"out": "", "err": "Hang", "hang": True}) + "\n"); sys.__stdout__.flush(); os._exit(3)
+signal.signal(signal.SIGALRM, _hang)
 for line in sys.stdin:
     if line.strip():
+        signal.alarm(120)
         try:
             print(json.dumps(run(json.loads(line))))
         except RecursionError:
